@@ -133,9 +133,27 @@ func lua(c *core.Ctx) {
 	}
 	// the branch: the block whose true edge establishes both facts
 	var branch *cfg.Block
+	branchSucc := 0
 	for _, bk := range g.CFG.Blocks {
-		if bk.Live && len(bk.Succs) == 2 && x.Establishes(bk, 0, isAux) && x.Establishes(bk, 0, isLuaKey) {
-			branch = bk
+		if !bk.Live || len(bk.Succs) != 2 || len(bk.Nodes) == 0 {
+			continue
+		}
+		for si := range bk.Succs {
+			// the edge after which both facts hold: established together, or the key test nested in
+			// the type test (if AUX { switch key { case "lua": ... } }) or the other way round
+			both := func(a, b func(cfgq.Fact) bool) bool {
+				if !x.Establishes(bk, si, a) {
+					return false
+				}
+				if x.Establishes(bk, si, b) {
+					return true
+				}
+				earlier, _ := x.OnlyVia(cfgq.Point{}, bk.Nodes[len(bk.Nodes)-1], b)
+				return earlier
+			}
+			if both(isLuaKey, isAux) || both(isAux, isLuaKey) {
+				branch, branchSucc = bk, si
+			}
 		}
 	}
 	if branch == nil {
@@ -153,7 +171,7 @@ func lua(c *core.Ctx) {
 		}
 		return false
 	}
-	start := cfgq.Point{B: branch.Succs[0]}
+	start := cfgq.Point{B: branch.Succs[branchSucc]}
 	w3 := g.Path(cfgq.Query{From: start, Target: usesConn})
 	c.Check("R6.lua", "RestoreRdbEntry/returns-before-key-routes", branch.Nodes[len(branch.Nodes)-1].Pos(), w3 == nil, "a Lua script entry must return before any key route: otherwise the script body is restored as a key named \"lua\" (also when filter.lua is set)", w3...)
 	w4 := g.Path(cfgq.Query{From: start, Avoid: func(n ast.Node) bool { return n == load.Node() }, TargetExit: cfgq.NormalExit,
